@@ -46,6 +46,8 @@ pub enum Cb {
     Panic,
     Send,
     Flush,
+    /// send an item, then drop the (last) sender from inside the callback
+    SendDrop,
 }
 
 #[derive(Serialize, Deserialize, Debug, Clone, PartialEq)]
@@ -303,6 +305,28 @@ fn make_cb(w: &W, kind: Cb, done: Ev) -> impl FnOnce() + Send + 'static {
                     };
                     s.send(item);
                     w.lock().unwrap().log.push(Ev::Accepted { item, via: Via::Send, waited: false });
+                }
+            }
+            Cb::SendDrop => {
+                if let Some(s) = sender {
+                    let item = {
+                        let mut g = w.lock().unwrap();
+                        g.next_item += 1;
+                        g.next_item
+                    };
+                    s.send(item);
+                    drop(s);
+                    let mut g = w.lock().unwrap();
+                    g.log.push(Ev::Accepted { item, via: Via::Send, waited: false });
+                    // drop the harness's handle too: if no async task holds a clone this closes the channel
+                    if let Some(last) = g.sender.take() {
+                        let closing = Arc::strong_count(&last) == 1;
+                        drop(g);
+                        drop(last);
+                        if closing {
+                            w.lock().unwrap().log.push(Ev::SenderDropped);
+                        }
+                    }
                 }
             }
             Cb::Flush => {
@@ -1120,7 +1144,7 @@ pub fn rem() -> impl Strategy<Value = Rem> {
 }
 
 pub fn cb() -> impl Strategy<Value = Cb> {
-    prop_oneof![5 => Just(Cb::Plain), 1 => Just(Cb::Panic), 1 => Just(Cb::Send), 1 => Just(Cb::Flush)]
+    prop_oneof![5 => Just(Cb::Plain), 1 => Just(Cb::Panic), 1 => Just(Cb::Send), 1 => Just(Cb::Flush), 1 => Just(Cb::SendDrop)]
 }
 
 pub fn op(w: Weights) -> impl Strategy<Value = Op> {
